@@ -21,8 +21,10 @@ MPREP = 'p0 = find_object ("/c05/master"); if (p0 && p0 != master ()) destruct (
 
 # entry points of the backend cycles (`injectbe`): the driver calls these itself
 BE_WRAPPERS = ["void heart_beat () { run (); }", "void reset () { run (); }", "int clean_up (int inh) { run (); return 1; }"]
-BE_OPS = {"cmd": "(becmd u1 t %s)", "hb": "(behb t %s)", "reset": "(bereset t %s)", "cleanup": "(becleanup t %s)"}
-BE_PREP = {"cmd": "", "hb": "set_heart_beat (1);", "reset": "", "cleanup": ""}
+BE_OPS = {"cmd": "(becmd u1 t %s)", "hb": "(behb t %s)", "hbc": "(behbc t %s)", "reset": "(bereset t %s)", "cleanup": "(becleanup t %s)"}
+# (hbc: the heart beat object has commands enabled, so call_heart_beat() makes it the command giver for its heart beat)
+BE_PREP = {"cmd": "", "hb": "set_heart_beat (1);", "hbc": "set_heart_beat (1); enable_commands ();", "reset": "", "cleanup": ""}
+BE_INJECT = {"cmd": "cmd", "hb": "hb", "hbc": "hb", "reset": "reset", "cleanup": "cleanup"}
 
 
 class Builder:
@@ -407,8 +409,8 @@ def case_from(cid, files, run_src_ops, extra_head=(), tail=(), inject="inject t 
 
 
 def build_case(rng, cid, budget):
-    be = rng.choice(["cmd", "hb", "reset", "cleanup"]) if rng.chance(1, 5) else None
-    b = Builder(rng, cid, budget, no_cg=be in ("hb", "reset", "cleanup"))
+    be = rng.choice(["cmd", "hb", "hbc", "reset", "cleanup"]) if rng.chance(1, 5) else None
+    b = Builder(rng, cid, budget, no_cg=be in ("hb", "hbc", "reset", "cleanup"))
     stmts, ops = b.block("t", 0, n=rng.range(1, 4))
     b.files["t"]["fns"].append("mixed run () { %s %s return 1; }" % (DECL, " ".join(stmts)))
     if be:
@@ -417,7 +419,7 @@ def build_case(rng, cid, budget):
         b.prep.append(BE_PREP[be])
         b.kinds["backend_" + be] = 1
         files = {name: b.source(name) for name in b.files}
-        c = case_from(cid, files, BE_OPS[be] % " ".join(ops), extra_head=["setcg 0"], inject="injectbe " + be)
+        c = case_from(cid, files, BE_OPS[be] % " ".join(ops), extra_head=["setcg 0"], inject="injectbe " + BE_INJECT[be])
         if rng.chance(1, 4):
             c.lines.insert(0, "maxdepth %d" % rng.range(7, 12))
             b.kinds["lowdepth"] = 1
@@ -1053,10 +1055,10 @@ class C05(Prop):
                      ("deep", "f2 ();", "(call local t 0 0 (call other t 0 0 (call fplocal t 0 0 (raise boom4))))", "")]
         be_fns = ['void f1 () { error ("boom2\\n"); }', 'void f4 () { error ("boom4\\n"); }', "void f3 () { evaluate ((: f4 :)); }",
                   "void f2 () { this_object ()->f3 (); }"]
-        for kind in ("cmd", "hb", "reset", "cleanup"):
+        for kind in ("cmd", "hb", "hbc", "reset", "cleanup"):
             for name, stmt, bops, vn in be_bodies:
                 B.append(fixed_case("b-backend-%s-%s" % (kind, name), stmt, BE_OPS[kind] % bops, fns=be_fns, prep=BE_PREP[kind],
-                                    vname=vn, inject="injectbe " + kind, extra_head=["setcg 0"]))
+                                    vname=vn, inject="injectbe " + BE_INJECT[kind], extra_head=["setcg 0"]))
         # the command_giver save stack (simulate.c): notify_no_command() calls the notify_fail() function with
         # command_giver pushed; an error in that function must not leave the stack one deeper
         for name, stmt, bops in (("say", 'VL ("say x");', "(say x)"), ("raise", 'error ("boom1\\n");', "(raise boom1)"),
@@ -1092,6 +1094,18 @@ class C05(Prop):
                                     ("(catch %s) (saycatch)" % o) if outer else o,
                                     fns=['void f1 () { error ("boom2\\n"); }',
                                          "void mcreate () { %s if (mflag) { mflag = 0; %s } }" % (DECL, stmt)]))
+        # boundary sizes of the unwinding: 255 / 256 / 300 / 70000 values between the recovery point and the error (an array
+        # literal pushes all its elements before it aggregates them)
+        for n in (255, 256, 300, 70000):
+            if n > 1000:
+                continue      # (the value stack of the default configuration holds fewer: kept for a larger EvaluatorStackSize)
+            lit = "({ " + "1, " * n + "f1 () })"
+            for outer in (False, True):
+                o = "(tmp %d (call local t 0 0 (raise boom1)))" % n
+                B.append(fixed_case("b-unwind-%d%s" % (n, "-caught" if outer else ""),
+                                    (CATCHSTMT % lit) if outer else ("a = %s;" % lit),
+                                    ("(catch %s) (saycatch)" % o) if outer else o,
+                                    fns=['int f1 () { error ("boom1\\n"); return 1; }']))
         # last_verb (query_verb()): an error in a verb function must not leave it set after the command
         for name, stmt, bops in (("say", 'VL ("say x");', "(say x)"), ("raise", 'error ("boom1\\n");', "(raise boom1)"),
                                  ("throw", 'throw ("t1");', "(throw t1)")):
